@@ -239,11 +239,19 @@ def worker_main(argv):
 
 
 def load_known():
-    path = os.path.join(VERIF_DIR, 'known_findings.json')
-    if not os.path.exists(path):
-        return []
-    with open(path, encoding='utf-8') as f:
-        return json.load(f).get('findings', [])
+    """known_findings.json plus known_findings.d/*.json (one file per
+    property); all committed, never written at run time."""
+    out = []
+    paths = [os.path.join(VERIF_DIR, 'known_findings.json')]
+    d = os.path.join(VERIF_DIR, 'known_findings.d')
+    if os.path.isdir(d):
+        paths += [os.path.join(d, fn) for fn in sorted(os.listdir(d))
+                  if fn.endswith('.json')]
+    for path in paths:
+        if os.path.exists(path):
+            with open(path, encoding='utf-8') as f:
+                out.extend(json.load(f).get('findings', []))
+    return out
 
 
 def match_known(known, prop_id, key):
